@@ -128,13 +128,17 @@ func (b *Backend) Leaf(i int) *trillian.LogLeaf {
 }
 
 // InjectLeaf appends a sequenced leaf directly (legacy / foreign content) and publishes a root.
-func (b *Backend) InjectLeaf(value, extra []byte, nanos uint64) {
+func (b *Backend) InjectLeaf(value, extra []byte, nanos uint64, identity ...[]byte) {
 	b.mu.Lock()
 	defer b.mu.Unlock()
 	h := ref.LeafHash(value)
-	id := sha256.Sum256(value)
-	l := &trillian.LogLeaf{LeafValue: value, ExtraData: extra, MerkleLeafHash: h, LeafIdentityHash: id[:], LeafIndex: int64(len(b.leaves))}
-	b.byID[string(id[:])] = l
+	sum := sha256.Sum256(value)
+	id := sum[:]
+	if len(identity) > 0 {
+		id = identity[0]
+	}
+	l := &trillian.LogLeaf{LeafValue: value, ExtraData: extra, MerkleLeafHash: h, LeafIdentityHash: id, LeafIndex: int64(len(b.leaves))}
+	b.byID[string(id)] = l
 	b.leaves = append(b.leaves, l)
 	b.tree.AppendHash(h)
 	b.rootSize = len(b.leaves)
